@@ -74,13 +74,13 @@ type Features struct {
 }
 
 func AllFeatures() Features {
-	return Features{true, true, true, true, true, false, true, true, true, true, true, true, true, true, true, true, true, true, true, true, true, true, true, true, true, true, true,
+	return Features{true, true, true, true, true, true, true, true, true, true, true, true, true, true, true, true, true, true, true, true, true, true, true, true, true, true, true,
 		2, 2, 2, 4, false}
 }
 
 func RandomFeatures(r *hx.Rng) Features {
 	p := func() bool { return r.Chance(55) }
-	f := Features{RoleBlacklist: p(), ActorPerms: p(), ProposalVoting: p(), ProposalEnact: p(), ProposalDone: p(), DataRegistry: r.Chance(20), Poll: p(), Councilor: p(), Identity: p(), ExecFee: p(),
+	f := Features{RoleBlacklist: p(), ActorPerms: p(), ProposalVoting: p(), ProposalEnact: p(), ProposalDone: p(), DataRegistry: r.Chance(50), Poll: p(), Councilor: p(), Identity: p(), ExecFee: p(),
 		ValPaused: p(), ValInactive: p(), ValJailed: p(), ValJoin: p(), Absent: p(), Multistaking: p(), Undelegation: p(), Compound: p(), Basket: p(), Tokens: p(), Spending: p(),
 		Ubi: p(), Collective: p(), Custody: p(), Layer2: p(), Recovery: p(), Upgrade: r.Chance(25),
 		ExtraBlocks: r.Intn(4), NUndelegations: 1 + r.Intn(3), NRoles: 1 + r.Intn(3), Validators: 4 + r.Intn(2)}
@@ -243,7 +243,7 @@ func Populate(c *abci.Chain, f Features, r *hx.Rng) *World {
 		cms := custodykeeper.NewMsgServerImpl(app.CustodyKeeper, app.CustomGovKeeper, app.BankKeeper)
 		key := func(s string) string { h := sha256.Sum256([]byte(s)); return hex.EncodeToString(h[:]) }
 		w.step("create custody", func() error {
-			_, err := cms.CreateCustody(sdk.WrapSDKContext(c.Ctx()), custodytypes.NewMsgCreateCustody(A(3), custodytypes.CustodySettings{CustodyEnabled: true, CustodyMode: 1, UseWhiteList: true, UseLimits: true}, "", key("k1"), "", ""))
+			_, err := cms.CreateCustody(sdk.WrapSDKContext(c.Ctx()), custodytypes.NewMsgCreateCustody(A(3), custodytypes.CustodySettings{CustodyEnabled: true, CustodyMode: 100, UseWhiteList: true, UseLimits: true}, "", key("k1"), "", ""))
 			return err
 		})
 		w.step("add custodians", func() error {
@@ -252,6 +252,15 @@ func Populate(c *abci.Chain, f Features, r *hx.Rng) *World {
 		})
 		w.step("add whitelist", func() error {
 			_, err := cms.AddToWhiteList(sdk.WrapSDKContext(c.Ctx()), custodytypes.NewMsgAddToCustodyWhiteList(A(3), []sdk.AccAddress{A(1)}, "k2", key("k3"), "", ""))
+			return err
+		})
+		w.step("custody send (pooled)", func() error {
+			_, err := cms.Send(sdk.WrapSDKContext(c.Ctx()), custodytypes.NewMsgSend(A(3), A(1), sdk.NewCoins(coin("ukex", 500)), "", sdk.NewCoins(coin("ukex", 10))))
+			return err
+		})
+		w.step("custody approve (1 of 2)", func() error {
+			h := sha256.Sum256(nil)
+			_, err := cms.ApproveTransaction(sdk.WrapSDKContext(c.Ctx()), custodytypes.NewMsgApproveCustodyTransaction(A(4), A(3), hex.EncodeToString(h[:])))
 			return err
 		})
 		w.step("add limits", func() error {
